@@ -31,6 +31,7 @@ From FT Require Proofs.EditSessions Proofs.EditSessionsFull Proofs.EditSessionsA
 From FT Require Gen.UserActions_gen Proofs.UserActionsTie.
 From FT Require Model.Toggle Proofs.EditInit.
 From FT Require Proofs.CoreTieBundle.
+From FT Require Model.EditCtor Proofs.EditCtor.
 Import ListNotations.
 Open Scope Z_scope.
 
@@ -288,6 +289,28 @@ Proof. exact EditInit.construct_session_WF. Qed.
 Theorem C04_core_is_generated : FT.Proofs.CoreTieBundle.core_tie_statement.
 Proof. exact FT.Proofs.CoreTieBundle.core_tie. Qed.
 
+(* ---- ... and for a graph that ARRIVES with managed features of its own (an imported or reloaded solution):
+        the constructor as the code runs it (Model/EditCtor.v: construct_any, following Tracks.__init__,
+        _check_existing_feature, _setup_core_computed_features and TrackAnnotator.__init__ /
+        _get_max_id_and_map) fills the id lookups by a scan of whatever ids the nodes carry, then ACTIVATES
+        every core feature the first node carries (values taken at face value) and COMPUTES every other one.
+        If the features detected on the first node are valid on all nodes (supplied_ok: supplied track ids label
+        exactly the unbranched segments, supplied lineage ids exactly the components, supplied positions /
+        areas are those of the current masks; nothing is assumed about a feature the first node lacks), the
+        constructed state is well formed - whatever combination of supplied and computed features - and so
+        is every state of every session over the whole interface from it. Proofs/EditCtorExample.v: a
+        solution with non-contiguous supplied track ids and a stale partial lineage id (accepted), and one
+        whose supplied ids are invalid (raw_ok holds, supplied_ok fails, the constructed state is NOT well
+        formed: the hypothesis is needed).  Tie: the constructor correspondence of every run compares
+        construct_any with SolutionTracks.__init__ on every generated raw solution (harness/ctor.py). ---- *)
+Theorem C04_sessions_from_any_construction : forall r0 posk ctrk clin extra ops,
+  EditInit.raw_ok r0 posk ctrk clin ->
+  EditCtor.supplied_ok r0 ->
+  (forall k, In k extra -> In k (Toggle.available r0)) ->
+  EditSessionsAll.pre_along_all (FT.Model.EditCtor.construct_any r0 ctrk clin extra) ops ->
+  forall pre post, ops = pre ++ post -> WF (run (FT.Model.EditCtor.construct_any r0 ctrk clin extra) pre).
+Proof. exact EditCtor.construct_any_session_WF. Qed.
+
 Example C04_ex4_hypotheses :
   W_dict ex4 /\ W_forest ex4 /\ W_trk ex4 /\ W_book ex4 /\ trk_bounded ex4 /\ trk_act (ft ex4) = true.
 Proof. exact (conj ex4_W_dict (conj ex4_W_forest (conj ex4_W_trk (conj ex4_W_book (conj ex4_trk_bounded eq_refl))))). Qed.
@@ -337,3 +360,4 @@ Print Assumptions C04_run_paint_calls.
 Print Assumptions C04_user_actions_are_generated.
 Print Assumptions C04_sessions_from_construction.
 Print Assumptions C04_core_is_generated.
+Print Assumptions C04_sessions_from_any_construction.
